@@ -8,9 +8,19 @@
 
 static void show_pid(const vbi_program_id *p)
 {
-	printf("ok pid %u %u %u %u %u %u %u %u %u\n", (unsigned) p->channel, (unsigned) p->cni_type,
+	printf("pid %u %u %u %u %u %u %u %u %u\n", (unsigned) p->channel, (unsigned) p->cni_type,
 	       p->cni, (unsigned) p->pil, (unsigned) p->luf, (unsigned) p->mi, (unsigned) p->prf,
 	       (unsigned) p->pcs_audio, p->pty);
+}
+
+static int known_op(const char *w)
+{
+	static const char *ops[] = { "rev8", "rev16", "ham8", "unham8", "par8", "unpar8", "unham16p", "unham24p", "ham24p", "unpar",
+		"vps_dec_cni", "vps_dec_pdc", "dvb_dec", "vps_enc_cni", "vps_enc_pdc", "dvb_enc", "vps_rt_cni", "vps_rt_pdc",
+		"dvb_rt", "vps_reenc", "p8301_cni", "p8301_time", "p8302_cni", "p8302_pdc", NULL };
+	int i;
+	for (i = 0; ops[i]; ++i) if (0 == strcmp(ops[i], w)) return 1;
+	return 0;
 }
 
 static uint8_t *hexn(int i, int n)
@@ -44,8 +54,8 @@ int main(void)
 		else if (H_IS(0, "unpar") && h_ntok > 1 && (b = h_hex(h_tok[1], &len))) {
 			int x = vbi_unpar(b, (unsigned) len); printf("ok %s ", x < 0 ? "neg" : "good"); h_puthex(b, len); printf("\n"); }
 		else if (H_IS(0, "vps_dec_cni") && (b = hexn(1, 13))) { unsigned c = 0; vbi_bool ok = vbi_decode_vps_cni(&c, b); if (ok) printf("ok %u\n", c); else printf("ok false\n"); }
-		else if (H_IS(0, "vps_dec_pdc") && (b = hexn(1, 13))) { vbi_program_id p; memset(&p, 0xAA, sizeof p); if (vbi_decode_vps_pdc(&p, b)) show_pid(&p); else printf("ok false\n"); }
-		else if (H_IS(0, "dvb_dec") && (b = hexn(1, 5))) { vbi_program_id p; memset(&p, 0xAA, sizeof p); if (vbi_decode_dvb_pdc_descriptor(&p, b)) show_pid(&p); else printf("ok false\n"); }
+		else if (H_IS(0, "vps_dec_pdc") && (b = hexn(1, 13))) { vbi_program_id p; memset(&p, 0xAA, sizeof p); if (vbi_decode_vps_pdc(&p, b)) { printf("ok "); show_pid(&p); } else printf("ok false\n"); }
+		else if (H_IS(0, "dvb_dec") && (b = hexn(1, 5))) { vbi_program_id p; memset(&p, 0xAA, sizeof p); if (vbi_decode_dvb_pdc_descriptor(&p, b)) { printf("ok "); show_pid(&p); } else printf("ok false\n"); }
 		else if (H_IS(0, "vps_enc_cni") && NUM(2, v) && (b = hexn(1, 13))) { vbi_bool ok; memcpy(orig, b, 13); ok = vbi_encode_vps_cni(b, (unsigned) v); OUT_BOOL_BUF(ok, b, 13); }
 		else if (H_IS(0, "vps_enc_pdc") && NUM(2, v) && NUM(3, v2) && NUM(4, v3) && NUM(5, v4) && (b = hexn(1, 13))) {
 			vbi_program_id p; vbi_bool ok; memset(&p, 0, sizeof p); memcpy(orig, b, 13);
@@ -54,6 +64,21 @@ int main(void)
 		else if (H_IS(0, "dvb_enc") && NUM(2, v) && (b = hexn(1, 5))) {
 			vbi_program_id p; vbi_bool ok; memset(&p, 0, sizeof p); memcpy(orig, b, 5); p.pil = (unsigned) v;
 			ok = vbi_encode_dvb_pdc_descriptor(b, &p); OUT_BOOL_BUF(ok, b, 5); }
+		else if (H_IS(0, "vps_rt_cni") && NUM(2, v) && (b = hexn(1, 13))) { vbi_bool ok; unsigned c = 0; memcpy(orig, b, 13);
+			ok = vbi_encode_vps_cni(b, (unsigned) v);
+			if (ok && vbi_decode_vps_cni(&c, b)) { printf("ok "); h_puthex(b, 13); printf(" %u\n", c); } else OUT_BOOL_BUF(0, b, 13); }
+		else if (H_IS(0, "vps_rt_pdc") && NUM(2, v) && NUM(3, v2) && NUM(4, v3) && NUM(5, v4) && (b = hexn(1, 13))) {
+			vbi_program_id p, q; vbi_bool ok; memset(&p, 0, sizeof p); memcpy(orig, b, 13);
+			p.cni = (unsigned) v; p.pil = (unsigned) v2; p.pcs_audio = (vbi_pcs_audio)(unsigned) v3; p.pty = (unsigned) v4;
+			ok = vbi_encode_vps_pdc(b, &p); memset(&q, 0xAA, sizeof q);
+			if (ok && vbi_decode_vps_pdc(&q, b)) { printf("ok "); h_puthex(b, 13); printf(" "); show_pid(&q); } else OUT_BOOL_BUF(0, b, 13); }
+		else if (H_IS(0, "dvb_rt") && NUM(2, v) && (b = hexn(1, 5))) {
+			vbi_program_id p, q; vbi_bool ok; memset(&p, 0, sizeof p); memcpy(orig, b, 5); p.pil = (unsigned) v;
+			ok = vbi_encode_dvb_pdc_descriptor(b, &p); memset(&q, 0xAA, sizeof q);
+			if (ok && vbi_decode_dvb_pdc_descriptor(&q, b)) { printf("ok "); h_puthex(b, 5); printf(" "); show_pid(&q); } else OUT_BOOL_BUF(0, b, 5); }
+		else if (H_IS(0, "vps_reenc") && (b = hexn(1, 13))) { uint8_t *t = hexn(2, 13);
+			if (!t) printf("rej parse\n"); else { vbi_program_id p; vbi_bool ok; memset(&p, 0xAA, sizeof p); memcpy(orig, t, 13);
+				ok = vbi_decode_vps_pdc(&p, b) && vbi_encode_vps_pdc(t, &p); OUT_BOOL_BUF(ok, t, 13); free(t); } }
 		else if (H_IS(0, "p8301_cni") && (b = hexn(1, 42))) { unsigned c = 0; if (vbi_decode_teletext_8301_cni(&c, b)) printf("ok %u\n", c); else printf("ok false\n"); }
 		else if (H_IS(0, "p8301_time") && (b = hexn(1, 42))) { time_t t = 12345; int se = 777;
 			if (vbi_decode_teletext_8301_local_time(&t, &se, b)) printf("ok %lld %d\n", (long long) t, se);
@@ -61,10 +86,9 @@ int main(void)
 		else if (H_IS(0, "p8302_cni") && (b = hexn(1, 42))) { unsigned c = 4242; if (vbi_decode_teletext_8302_cni(&c, b)) printf("ok %u\n", c);
 			else if (c != 4242) printf("ok false-but-modified\n"); else printf("ok false\n"); }
 		else if (H_IS(0, "p8302_pdc") && (b = hexn(1, 42))) { vbi_program_id p, q; memset(&p, 0xAA, sizeof p); q = p;
-			if (vbi_decode_teletext_8302_pdc(&p, b)) show_pid(&p);
+			if (vbi_decode_teletext_8302_pdc(&p, b)) { printf("ok "); show_pid(&p); }
 			else if (memcmp(&p, &q, sizeof p)) printf("ok false-but-modified\n"); else printf("ok false\n"); }
-		else if (h_ntok >= 1 && (0 == strncmp(h_tok[0], "vps_", 4) || 0 == strncmp(h_tok[0], "dvb_", 4) || 0 == strncmp(h_tok[0], "p830", 4)
-			 || strstr("rev8 rev16 ham8 unham8 par8 unpar8 unham16p unham24p ham24p unpar", h_tok[0]))) printf("rej parse\n");
+		else if (h_ntok >= 1 && known_op(h_tok[0])) printf("rej parse\n");
 		else printf("rej op\n");
 		free(b);
 	}
